@@ -2,6 +2,7 @@
 from __future__ import annotations
 
 import os
+import time
 
 from hypothesis import strategies as st
 
@@ -90,7 +91,7 @@ def _cases(draw, tier):
                 ["md.bounds", "md.read", "md.read", "md.ffill", "md.latest", "md.flat", "md.fields", "md.nocolumn", "ls", "ls.window", "ls.reverse",
                  "rf.read", "rf.bounds", "rf.read_metadata", "rf.get_dm", "rf.props", "rf.blocks"])),
                 "r": draw(st.integers(0, 5)), "a": draw(st.integers(-300, 300)), "b": draw(st.integers(0, 600))})
-    return {"C": C, "S": S, "steps": steps}
+    return {"C": C, "S": S, "steps": steps, "inprogress": draw(st.sampled_from([None, None, 300, 10800]))}
 
 
 def strategy(tier):
@@ -199,6 +200,24 @@ def run_case(case):
                     for dp, dn, fn in os.walk(top):
                         for f_ in fn:
                             os.utime(os.path.join(dp, f_), (946684800, 946684800))
+                    # ... while another process (on a host whose clock is ahead) has just begun the metadata file of the
+                    # period after the newest sample: created, not yet a valid HDF5 file.  Readers skip it; no query may
+                    # remove or touch it
+                    junk = None
+                    if case.get("inprogress") and model:
+                        jt = (M.exact_file_ts(max(model), N, D, C) // C + 1) * C
+                        junk = os.path.join(md, os.path.dirname(M.exact_path(M.boundary_index(jt // C, N, D, C), N, D, C, S, "metadata")),
+                                            "metadata@%d.h5" % jt)
+                        if os.path.exists(junk):
+                            junk = None
+                        else:
+                            made_dir = None if os.path.isdir(os.path.dirname(junk)) else os.path.dirname(junk)
+                            os.makedirs(os.path.dirname(junk), exist_ok=True)
+                            with open(junk, "wb") as f_:
+                                f_.write(b"\x89HDF\r\n\x1a\n" + b"\0" * 40)
+                            t_ = time.time() + case["inprogress"]
+                            os.utime(junk, (t_, t_))
+                            res.cls("unfinished-file-of-another-process:clock-ahead")
                     before = treeutil.snapshot(top, mtime=True)
                     base_k = max(model) if model else T0 * N
                     a = base_k + st_["a"]
@@ -257,6 +276,12 @@ def run_case(case):
                     after = treeutil.snapshot(top, mtime=True)
                     if after != before:
                         fail("read-modified-tree:" + which, "step %d %s: %s" % (si, which, treeutil.diff(before, after)))
+                    if junk is not None:
+                        # (the other process gives up: its file and the directory it made disappear again)
+                        if os.path.exists(junk):
+                            os.remove(junk)
+                        if made_dir and os.path.isdir(made_dir) and not os.listdir(made_dir):
+                            os.rmdir(made_dir)
         finally:
             with rfharness.quiet_fds():
                 rfw.close()
